@@ -220,7 +220,26 @@ func scenarioC06(x *runner.X) {
 		}
 		x.Probe("c06.parked-batch-then-partial-flush")
 	}
-	manyBatches := !parked && boundary == 0 && t.Bool(0.25)
+	// burst (real constants only): a few hundred addresses named by every push, so that all of them
+	// complete a batch in the same push, twice: more full batches than the hand-off queue (50) and
+	// the writer's parking space (256) hold, with older batches of the same addresses still parked
+	burst := real && !parked && boundary == 0 && t.Bool(0.3)
+	if burst {
+		nAddr = t.Range(310, 330)
+		per := 2*B + t.Range(0, 60)
+		for i := 0; i < per; i++ {
+			p := c06push{e: mkEntry()}
+			for a := 0; a < nAddr; a++ {
+				p.keys = append(p.keys, a)
+			}
+			if t.Bool(0.001) {
+				p.pause = 1
+			}
+			pushes = append(pushes, p)
+		}
+		x.Probe("c06.burst-of-full-batches")
+	}
+	manyBatches := !parked && !burst && boundary == 0 && t.Bool(0.25)
 	if manyBatches {
 		// every push names all of 7..16 addresses, each address ends with 2..3 full batches and a
 		// remainder: more than a dozen batches of few addresses are in flight at once
@@ -241,7 +260,7 @@ func scenarioC06(x *runner.X) {
 		}
 		x.Probe("c06.many-batches")
 	}
-	if boundary == 0 && !manyBatches && !parked {
+	if boundary == 0 && !manyBatches && !parked && !burst {
 		others := t.Range(0, 3*B)
 		if real {
 			others = t.Range(0, 50)
